@@ -313,7 +313,7 @@ func (c *Ctx) gatedContainerRules(prefix string) {
 
 func runC11(c *Ctx) {
 	p, r := c.P, c.R
-	r.Explanation = "Decides the structural clauses of C11 on gated.Filter: all gate state (gated, orderedGated, composeFrom, Expiration, the groups' event slices) is accessed under Filter.l held for writing (pairwise lock-set discipline, including the unexported helpers' entry lock sets); insertions into the id map are paired with PushBack and removals from the map with list.Remove, both deferred before composition so they run on error too; in Process the incoming event is appended to its id's group before the flush test, composition receives exactly that group's slice, non-flush returns (nil,nil) and flush returns a fresh event built from composition's results; openGate sends only a payload proven not Gateable, with composition's type and payload unchanged; non-Gateable events are returned untouched before any lock, empty ids rejected; list iteration is safe (shared with C17). Exactly-once over long histories as such is not decided."
+	r.Explanation = "Decides the structural clauses of C11 on gated.Filter: all gate state (gated, orderedGated, composeFrom, Expiration, the groups' event slices) is accessed under Filter.l held for writing (pairwise lock-set discipline, including the unexported helpers' entry lock sets); insertions into the id map are paired with PushBack and removals from the map with list.Remove, both deferred before composition so they run on error too; in Process the incoming event is appended to its id's group before the flush test, composition receives exactly that group's slice, non-flush returns (nil,nil) and flush returns a fresh event built from composition's results; openGate sends only a payload proven not Gateable, with composition's type and payload unchanged; non-Gateable events are returned untouched before any lock, empty ids rejected; list iteration is safe (shared with C17). Exactly-once over long histories as such is not decided. C11.reset / C11.discard / C11.insert / C11.listops: whole-container resets only without a Broker; unsent removal only for composition failure, Gateable composite or no Broker; a group is opened only when the id has none; nothing reorders the list."
 	r.NotDecided = []string{"exactly-once delivery over arbitrary long histories (the rules are its per-step obligations)", "behaviour of user ComposeFrom implementations"}
 	c.lockControls()
 	c.errControls()
@@ -324,6 +324,7 @@ func runC11(c *Ctx) {
 	c.gatedContainerRules("C11")
 	c.ruleGatedReset("C11.reset")
 	c.ruleGatedDiscard("C11.discard")
+	c.ruleGatedInsert("C11.insert")
 	c.ruleListOps("C11.listops")
 	c.ruleGatedOrder()
 	c.ruleGatedNoGate("C11.nogate")
